@@ -74,6 +74,9 @@ func model(recs []recSpec, h3 bool) (useH3 bool, kept []int) {
 	if h3 {
 		for _, i := range order {
 			r := recs[i]
+			if r.Prio == 0 {
+				continue // an alias-mode record is not a usable record: its parameters are ignored (RFC 9460 §2.4.2)
+			}
 			if slices.Contains(r.ALPN, "h3") {
 				useH3 = true
 				break
@@ -85,6 +88,9 @@ func model(recs []recSpec, h3 bool) (useH3 bool, kept []int) {
 	}
 	for _, i := range order {
 		r := recs[i]
+		if r.Prio == 0 {
+			continue
+		}
 		if useH3 && slices.Contains(r.ALPN, "h3") || !useH3 && speaksH12(r) {
 			kept = append(kept, i)
 		}
@@ -141,6 +147,13 @@ func decisionTable(r *ev.Run) {
 			}
 		}
 	}
+	// a service-mode record FOLLOWED in the answer by an alias-mode record that carries parameters (the resolver keeps the set as
+	// a service set; the alias record's alpn must not take part in any decision)
+	for _, a := range dom[:len(dom)/2] {
+		for _, nd := range []bool{false, true} {
+			sets = append(sets, []recSpec{a, {0, []string{"h3"}, nd}})
+		}
+	}
 	r.Set("record_sets", len(sets))
 	nShard := 32
 	enum.ParallelFor(nShard, func(sh int) {
@@ -160,7 +173,11 @@ func decisionTable(r *ev.Run) {
 						ps = append(ps, dnsref.ParamNoDefaultALPN())
 					}
 					ps = append(ps, dnsref.ParamPort(uint16(1000+i))) // a distinct port per record identifies it among the dial targets
-					rrs = append(rrs, dnsref.RR{Name: "a.example", Type: 65, Class: 1, TTL: 60, Fields: dnsref.SVCB(uint16(rc.Prio), "", ps)})
+					target := ""
+					if rc.Prio == 0 {
+						target = "alias-target.example"
+					}
+					rrs = append(rrs, dnsref.RR{Name: "a.example", Type: 65, Class: 1, TTL: 60, Fields: dnsref.SVCB(uint16(rc.Prio), target, ps)})
 				}
 				srv.Zone = func(name string, t uint16) dohmem.Answer {
 					switch {
@@ -292,6 +309,10 @@ func zoneFor(kind int) func(name string, t uint16) dohmem.Answer {
 				return dohmem.Answer{}
 			}
 			switch kind {
+			case 3:
+				// the only record is for QUIC: nothing this client (without an HTTP/3 round-tripper) can use - the origin still
+				// publishes HTTPS records, so http is still upgraded; the connection goes to the origin's own address
+				return dohmem.Answer{Records: []dnsref.RR{{Name: name, Type: 65, Class: 1, TTL: 60, Fields: dnsref.SVCB(1, "", []dnsref.Param{dnsref.ParamALPN("h3"), dnsref.ParamNoDefaultALPN()})}}}
 			case 1:
 				return dohmem.Answer{Records: []dnsref.RR{{Name: name, Type: 65, Class: 1, TTL: 60, Fields: dnsref.SVCB(1, "", []dnsref.Param{dnsref.ParamALPN("http/1.1")})}}}
 			case 2:
@@ -386,6 +407,7 @@ func runHistory(hc histCase, host string) (key, what string) {
 	tr := ech.NewTransport()
 	tr.Resolver, _ = ech.NewResolver("https://" + host + "/dns-query")
 	tr.TLSConfig = &tls.Config{RootCAs: tlsx.Pool()}
+	tr.Dialer.Resolver = tr.Resolver // a user who configures the Transport's resolver plausibly configures its Dialer too: the result the Transport resolved still rules
 	orig := tr.HTTPTransport.DialContext
 	tr.HTTPTransport.DialContext = func(ctx context.Context, network, addr string) (net.Conn, error) {
 		w.mu.Lock()
@@ -545,8 +567,11 @@ func histories(r *ev.Run) {
 		depth = 4
 	}
 	var cases []histCase
-	for z := 0; z < 3; z++ {
+	for z := 0; z < 4; z++ {
 		enum.Sequences(firstLiteralOrigin, depth, func(seq []int) {
+			if z == 3 && len(seq) > 2 {
+				return
+			}
 			if len(seq) == 0 {
 				return
 			}
@@ -612,7 +637,7 @@ func histories(r *ev.Run) {
 }
 
 func Run(r *ev.Run) {
-	r.Rule("part 1 (E1, exhaustive decision table): every set of 1..3 service-mode HTTPS records with distinct priorities over ALPN {none,[h3],[h2],[h3,h2],[http/1.1],[foo],[h3-29,h2]} x no-default-alpn x {HTTP3Transport nil, set and failing, set and answering}: which round-tripper runs, which records reach the dialer, and that an HTTP/3 answer comes back attributed to the caller's own request (observed by dialing through the context-carried resolver, each record identified by a distinct port) vs a reference; part 2 (E4): every request history of length <=3 (thorough 4) over 8 origins {http,https} x {a.example,b.example (same address)} x {default port, 8443} x 3 zones {no HTTPS records, service records, alias to c.example with its own address}, plus every history of length <=3 over four IPv6-literal https origins ([fd00::443]:8443, [fd00::]:8443, [fd00::], [fd00::8443]), with a Host override / with an empty Host field / plain, through the real net/http client and Transport over in-memory TLS servers: plaintext never used, http upgraded iff HTTPS records exist, ServerName/SNI = the URL's host, Host header preserved, dial address/port, resp.Request identity, and no server connection shared between origins. distinct = distinct cases")
+	r.Rule("part 1 (E1, exhaustive decision table): every set of 1..3 service-mode HTTPS records with distinct priorities over ALPN {none,[h3],[h2],[h3,h2],[http/1.1],[foo],[h3-29,h2]} x no-default-alpn x {HTTP3Transport nil, set and failing, set and answering}: which round-tripper runs, which records reach the dialer, and that an HTTP/3 answer comes back attributed to the caller's own request (observed by dialing through the context-carried resolver, each record identified by a distinct port) vs a reference; part 2 (E4): every request history of length <=3 (thorough 4) over 8 origins {http,https} x {a.example,b.example (same address)} x {default port, 8443} x 4 zones {no HTTPS records, service records, alias to c.example with its own address, a QUIC-only service record (length <=2)}, plus every history of length <=3 over four IPv6-literal https origins ([fd00::443]:8443, [fd00::]:8443, [fd00::], [fd00::8443]), with a Host override / with an empty Host field / plain, through the real net/http client and Transport over in-memory TLS servers: plaintext never used, http upgraded iff HTTPS records exist, ServerName/SNI = the URL's host, Host header preserved, dial address/port, resp.Request identity, and no server connection shared between origins. distinct = distinct cases")
 	r.Assume("net/http and crypto/tls run goroutines outside any scheduler: a failing history is re-executed and reported only if it fails 5/5", "record sets with equal priorities are excluded (their relative order is unspecified)", "HTTP/3 itself is represented by a fake round-tripper that dials through the context-carried resolver")
 	muxOnce.Do(func() { dns.VerifRoundTripper = mux })
 	t0 := time.Now()
